@@ -20,8 +20,10 @@ pub fn run(ctx: &mut Ctx) {
     let mut scale_q: Vec<String> = vec![];
     for i in 0..n {
         let big = i % 10 == 9;
-        let max_work = if big { 2048 } else { *ctx.rng.pick(&[8usize, 16, 32, 64]) };
-        let cfg = gen_cfg(&mut ctx.rng, max_work, &["high", "low", "default", "rs"], &ENGINES, if big { &[2, 64, 66] } else { &SMALL_SIZES });
+        // every 11th case: few shards of 4 KiB and more (64+ blocks), implementation only
+        let long = !big && i % 11 == 4;
+        let max_work = if big { 2048 } else if long { 8 } else { *ctx.rng.pick(&[8usize, 16, 32, 64]) };
+        let cfg = gen_cfg(&mut ctx.rng, max_work, &["high", "low", "default", "rs"], &ENGINES, if big { &[2, 64, 66] } else if long { &LONG_SIZES } else { &SMALL_SIZES });
         // structured data (zero blocks, identical shards, constant fills, unit vectors) as well as
         // random: a data-dependent shortcut in the encoder shows up only on such inputs
         let a: Vec<Vec<u8>> = gen_originals(&mut ctx.rng, cfg.k, cfg.sb);
@@ -42,7 +44,7 @@ pub fn run(ctx: &mut Ctx) {
         let c = *ctx.rng.pick(&[0usize, 1, 2, 18064, 65535, 0x8000, 12345]) ^ (if ctx.rng.chance(1, 2) { ctx.rng.below(65536) } else { 0 });
         let c = c % 65536;
         let mut case = Case::new(&format!("linear-{}", i));
-        case.with_model = !big;
+        case.with_model = !big && !long;
         // half of the time the four encodes are consecutive rounds of ONE encoder (implicit reset only): the code is
         // linear whatever the object did before
         let reuse = ctx.rng.chance(1, 2);
